@@ -51,7 +51,7 @@ specs["C11"] = {"runs": [
  ], "assumptions": [DATA, "N in 1..5 only; larger limits are argued by the uniformity of the level test, not checked", "a reference to a basic element counts as one reference of the chain (the reading under which the unchanged code is right for N = 1)"],
  "outside_claim": ["N in 6..9 and 11, 12"], "stubs": ["fmt.Errorf: contract stub"]}
 
-C04own = ["record-", "entry-", "note-", "no-error-reported", "callback-error-not-returned"]
+C04own = ["record-", "entry-", "note-", "no-error-reported", "callback-error-not-returned", "no-panic"]
 q, t = {"n": 3, "m": 2, "a": 3}, {"n": 4, "m": 3, "a": 4, "layouts": 1}
 names = {0: "blank", 1: "comment", 2: "heading", 3: "note", 4: "entry", 5: "bad-syntax", 6: "bad-number", 7: "arbitrary"}
 def ls(cls, tiers, b, owned):
